@@ -488,6 +488,61 @@ func Boxed%[1]d() any { return Low%[1]d }
 			g.q("main", p, fmt.Sprintf("Same%d", u)), g.q("main", p, fmt.Sprintf("Boxed%d", u)), g.q("main", p, fmt.Sprintf("Hit%d", u)), g.q("main", p, fmt.Sprintf("Low%d", u))))
 		return "main"
 	}},
+	{"sealed_interface_promoted_method", false, func(g *G, u int) string {
+		// a type of one package gets an UNEXPORTED method by promotion from an embedded type of another package;
+		// it implements that package's sealed interface and not a same-named interface of its own package
+		lib := g.pkg("pkg")
+		user := "main"
+		k := g.n(2, 9, "k")
+		g.add(lib, fmt.Sprintf(`type Base%[1]d struct{ N int }
+
+func (b Base%[1]d) area() int    { return b.N * %[2]d }
+func (b Base%[1]d) Name() string { return "base" }
+
+type Ptr%[1]d struct{ N int }
+
+func (p *Ptr%[1]d) area() int    { return p.N + %[2]d }
+func (p *Ptr%[1]d) Name() string { return "ptr" }
+
+type Shape%[1]d interface {
+	Name() string
+	area() int
+}
+
+func AreaOf%[1]d(s Shape%[1]d) int { return s.area() }
+
+func Sealed%[1]d(v any) int {
+	if s, ok := v.(Shape%[1]d); ok {
+		return s.area()
+	}
+	return -1
+}
+`, u, k))
+		g.add(user, fmt.Sprintf(`type Square%[1]d struct {
+	%[2]s
+	side int
+}
+
+type Holder%[1]d struct{ *%[3]s }
+
+type own%[1]d interface{ area() int }
+
+func (s Square%[1]d) Side() int { return s.side }
+
+func U%[1]d() {
+	sq := Square%[1]d{%[2]s{N: 3}, 4}
+	var viaStatic %[4]s = sq
+	_, mine := any(sq).(own%[1]d)
+	_, minePtr := any(&sq).(own%[1]d)
+	anon := struct{ %[2]s }{%[2]s{N: 5}}
+	h := Holder%[1]d{&%[3]s{N: 6}}
+	_, hMine := any(h).(own%[1]d)
+	println("#%[1]d", %[5]s(sq), %[5]s(&sq), %[5]s(anon), %[5]s(h), %[5]s(7), %[6]s(viaStatic), viaStatic.Name(), mine, minePtr, hMine, %[6]s(h))
+}
+`, u, g.q(user, lib, fmt.Sprintf("Base%d", u)), g.q(user, lib, fmt.Sprintf("Ptr%d", u)), g.q(user, lib, fmt.Sprintf("Shape%d", u)),
+			g.q(user, lib, fmt.Sprintf("Sealed%d", u)), g.q(user, lib, fmt.Sprintf("AreaOf%d", u))))
+		return user
+	}},
 	{"same_names_two_pkgs", true, func(g *G, u int) string {
 		// identical type, method, function and closure-holding variable names in pa and q.r/pa
 		for i, p := range []string{"pa", "q.r/pa"} {
